@@ -12,6 +12,7 @@ import (
 
 	"github.com/z7zmey/php-parser/pkg/ast"
 	"github.com/z7zmey/php-parser/pkg/visitor"
+	"github.com/z7zmey/php-parser/pkg/visitor/dumper"
 	"github.com/z7zmey/php-parser/pkg/visitor/nsresolver"
 	"github.com/z7zmey/php-parser/pkg/visitor/printer"
 	"github.com/z7zmey/php-parser/pkg/visitor/traverser"
@@ -26,7 +27,27 @@ import (
 // equal the output the same operation produces on a freshly parsed tree.
 // thorough tier: two goroutines run histories on the same tree under the race detector.
 
-var c13Ops = []string{"print", "print(php-state)", "print(subtree)", "dump", "dump+tokens", "dump+positions", "dump+tokens+positions", "traverse(null)", "traverse(recording)", "resolve", "accept(null)"}
+var c13Ops = []string{"print", "print(php-state)", "print(subtree)", "dump", "dump+tokens", "dump+positions", "dump+tokens+positions", "traverse(null)", "traverse(recording)", "resolve", "accept(null)", "dump(failing-writer)", "print(failing-writer)"}
+
+// c13FailingWriter accepts limit bytes and then fails every Write: a full disk, a closed pipe. The dumper
+// reports that by panicking (recovered here), the printer ignores it; either way the operation is abandoned
+// half-way, and nothing of it may be visible to any later operation.
+type c13FailingWriter struct {
+	buf   bytes.Buffer
+	limit int
+}
+
+func (w *c13FailingWriter) Write(b []byte) (int, error) {
+	if w.buf.Len()+len(b) > w.limit {
+		n := w.limit - w.buf.Len()
+		if n < 0 {
+			n = 0
+		}
+		w.buf.Write(b[:n])
+		return n, fmt.Errorf("verif: injected write error after %d bytes", w.limit)
+	}
+	return w.buf.Write(b)
+}
 
 // resolvedNames renders the resolver's map independent of node addresses.
 func resolvedNames(root ast.Vertex) (string, *obs.Panic) {
@@ -89,6 +110,14 @@ func c13RunWith(op string, root ast.Vertex, src []byte, long bool) (string, *obs
 			}
 		})
 		return buf.String(), p
+	case "dump(failing-writer)":
+		w := &c13FailingWriter{limit: 7 + len(src)%97*3}
+		p := obs.Try(func() { dumper.NewDumper(w).WithTokens().Dump(root) })
+		return w.buf.String(), p
+	case "print(failing-writer)":
+		w := &c13FailingWriter{limit: 3 + len(src)%41}
+		p := obs.Try(func() { root.Accept(printer.NewPrinter(w)) })
+		return w.buf.String(), p
 	case "dump":
 		return dumpTree(root, dumpOpts{false, false})
 	case "dump+tokens":
@@ -246,7 +275,7 @@ func c13Where(a, b string) string {
 func init() {
 	core.Register(&core.Check{
 		ID:   "C13",
-		Rule: "cases = known-finding witnesses ++ trees parsed from the shared workload (corpus, hostile inputs incl. trees with errors, generated programs of both families with namespaces/imports, block-crossing concatenations); per tree one PRNG history of 4..16 operations over {print, print in PHP state, print of a subtree, dump x 4 option sets, traverse(null), traverse(recording), resolve names, Accept(null)}, for half of the trees with the dump and traverse operations going through the worker's long-lived Dumper / Traverser objects (used for every tree before); after every operation: pointer-level fingerprint + guarded source unchanged, output equal to the fresh-tree output; a race-detector twin (C13R, built with -race) runs two histories concurrently on one tree for 1500 (quick) / 60000 (thorough) trees; non-trivial = tree with >= 3 nodes; distinct by (input, version, history)",
+		Rule: "cases = known-finding witnesses ++ trees parsed from the shared workload (corpus, hostile inputs incl. trees with errors, generated programs of both families with namespaces/imports, block-crossing concatenations); per tree one PRNG history of 4..16 operations over {print, print in PHP state, print of a subtree, dump x 4 option sets, traverse(null), traverse(recording), resolve names, Accept(null), dump and print into a writer that fails after a few bytes}, for half of the trees with the dump and traverse operations going through the worker's long-lived Dumper / Traverser objects (used for every tree before); after every operation: pointer-level fingerprint + guarded source unchanged, output equal to the fresh-tree output; a race-detector twin (C13R, built with -race) runs two histories concurrently on one tree for 1500 (quick) / 60000 (thorough) trees; non-trivial = tree with >= 3 nodes; distinct by (input, version, history)",
 		Assumptions: []string{
 			"the pointer-level fingerprint covers every exported field reachable by reflection, including node/token/position addresses, slice lengths, capacities and data pointers, and the bytes of every value",
 			"resolver output is compared as the sorted list kind@span=name (node addresses differ between two parses)",
